@@ -5,7 +5,7 @@
 (* One specification step consumes one record; a record the specification   *)
 (* cannot explain is printed as a FAIL line.  Nothing is decided outside     *)
 (* TLC except byte-order facts about concrete strings (`strictly_sorted`).   *)
-EXTENDS Targets, Dag, TLC, Json, IOUtils, SequencesExt, FiniteSetsExt
+EXTENDS Targets, Dag, Cli, TLC, Json, IOUtils, SequencesExt, FiniteSetsExt
 
 Rec == ndJsonDeserialize(IOEnv.TRACE)
 
@@ -107,7 +107,12 @@ DagBigWhy(r) ==
                   IN IF \E k \in 0..(n - 1) : \E u \in a(k) : pos[u] >= pos[k]
                      THEN "groups are not a valid layering of the closure of the roots" ELSE ""
 
+ShapeWhy(r) ==
+  IF r.api = "analyze" THEN AnalyzeShapeWhy(r.flags, RangeOf(r.keys), RangeOf(r.change_has_targets), r.checkpointed, r.cp_exists)
+  ELSE TargetShowShapeWhy(r.flags, RangeOf(r.keys), r.any_commands, r.any_argmaps)
+
 Why(r) == CASE r.ev = "analyze" -> AnalyzeWhy(r)
+            [] r.ev = "shape"   -> ShapeWhy(r)
             [] r.ev = "dag_big" -> DagBigWhy(r)
             [] r.ev = "dag"     -> DagWhy(r)
             [] r.ev = "edges"   -> EdgesWhy(r)
